@@ -507,11 +507,15 @@ package input
 //@   ensures [accept_complete @b] (forall n string :: n in i.Services ==> svcOK(n, i.Services[n])) && (forall a int, b int :: 0 <= a && a < b && b < len(maps.Keys(i.Services)) && hasGetter(svcAt(i, a)) && hasGetter(svcAt(i, b)) ==> *svcAt(i, a).Getter != *svcAt(i, b).Getter) ==> result == nil
 //@   loop 1
 //@     invariant [getters_nonnil] getters != nil
-//@     invariant [a @a] allNil(errs, len(errs)) ==> (forall q int :: 0 <= q && q < $i ==> svcOK(maps.Keys(i.Services)[q], i.Services[maps.Keys(i.Services)[q]]))
-//@     invariant [u @u] allNil(errs, len(errs)) ==> (forall a int, b int :: 0 <= a && a < b && b < $i && hasGetter(svcAt(i, a)) && hasGetter(svcAt(i, b)) ==> *svcAt(i, a).Getter != *svcAt(i, b).Getter)
+//@     invariant [one_entry_per_service] len(errs) == $i
+// position by position: the entry of a service is nil only if the service is fine, a repeated getter is reported at the
+// later of the two services, and a service that is fine and repeats no earlier getter has a nil entry
+//@     invariant [a @a] forall q int :: 0 <= q && q < $i && errs[q] == nil ==> svcOK(maps.Keys(i.Services)[q], i.Services[maps.Keys(i.Services)[q]])
+//@     invariant [u @u] forall a int, b int :: 0 <= a && a < b && b < $i && hasGetter(svcAt(i, a)) && hasGetter(svcAt(i, b)) && *svcAt(i, a).Getter == *svcAt(i, b).Getter ==> errs[b] != nil
 //@     invariant [seen_complete @u] forall a int :: 0 <= a && a < $i && hasGetter(svcAt(i, a)) ==> (*svcAt(i, a).Getter in getters)
 //@     invariant [seen_sound @b] forall g string :: g in getters ==> (exists a int :: 0 <= a && a < $i && hasGetter(svcAt(i, a)) && *svcAt(i, a).Getter == g)
-//@     invariant [b @b] (forall q int :: 0 <= q && q < $i ==> svcOK(maps.Keys(i.Services)[q], i.Services[maps.Keys(i.Services)[q]])) && (forall a int, b int :: 0 <= a && a < b && b < $i && hasGetter(svcAt(i, a)) && hasGetter(svcAt(i, b)) ==> *svcAt(i, a).Getter != *svcAt(i, b).Getter) ==> allNil(errs, len(errs))
+//@     invariant [b @b] forall q int :: 0 <= q && q < $i && svcOK(maps.Keys(i.Services)[q], i.Services[maps.Keys(i.Services)[q]])
+//@        && (forall a int :: 0 <= a && a < q && hasGetter(svcAt(i, a)) && hasGetter(svcAt(i, q)) ==> *svcAt(i, a).Getter != *svcAt(i, q).Getter) ==> errs[q] == nil
 //@   loop 2
 //@     invariant [len] len(sErrs) == 1 + $i
 //@     invariant [name] sErrs[0] == ValidateServiceName(n)
